@@ -27,8 +27,9 @@ Opts == IF PoseKnown THEN E.opts ELSE <<0, E.opts[2], E.opts[3], E.opts[4], E.op
 PtOk(k, out) == PointOk(ctx.proto, Raw[k], ctx.pose, ctx.ilim, ctx.clim, E.opts, out)
 
 \* C13: non-decreasing in the stored value (finite inputs, same channel, same option vector)
+\* (quadratic in the number of points: checked on the sweeps, skipped for bulk files)
 Mono(name, pick(_)) ==
-    HasR(ctx.proto, name) =>
+    (HasR(ctx.proto, name) /\ Len(E.res.ok) <= 300) =>
       \A j, k \in 1..Len(E.res.ok) :
          LET vj == Q4(Raw[j], Pos(ctx.proto, name)) vk == Q4(Raw[k], Pos(ctx.proto, name))
          IN (IsFin(vj) /\ IsFin(vk) /\ Val(vj) <= Val(vk) /\ IsSome(pick(E.res.ok[j])) /\ IsSome(pick(E.res.ok[k])))
